@@ -38,6 +38,32 @@ STRATA = {
     "remove_pbc": (1800, 70000),
     "backbone": (300, 10000),
 }
+# functions that must leave their arguments untouched (vf.core.PurityMonitor; '!' = the object itself is watched too)
+PURE = [
+    "biotite.structure.geometry:distance",
+    "biotite.structure.geometry:angle",
+    "biotite.structure.geometry:dihedral",
+    "biotite.structure.geometry:displacement",
+    "biotite.structure.geometry:index_distance",
+    "biotite.structure.geometry:index_angle",
+    "biotite.structure.geometry:index_dihedral",
+    "biotite.structure.geometry:centroid",
+    "biotite.structure.box:unitcell_from_vectors",
+    "biotite.structure.box:coord_to_fraction",
+    "biotite.structure.box:fraction_to_coord",
+    "biotite.structure.box:move_inside_box",
+    "biotite.structure.box:remove_pbc",
+    "biotite.structure.box:remove_pbc_from_coord",
+    "biotite.structure.box:repeat_box",
+    "biotite.structure.box:repeat_box_coord",
+    "biotite.structure.box:is_orthogonal",
+    "biotite.structure.transform:translate",
+    "biotite.structure.transform:rotate",
+    "biotite.structure.transform:rotate_centered",
+    "biotite.structure.transform:rotate_about_axis",
+    "biotite.structure.transform:align_vectors",
+    "biotite.structure.transform:orient_principal_components",
+]
 REQUIRED_ORACLES = [
     "distance_textbook", "angle_textbook", "dihedral_textbook", "distance_invariant", "angle_invariant",
     "dihedral_invariant", "index_equals_coordinate_form", "pbc_lattice", "pbc_shortest_orthorhombic",
